@@ -2,7 +2,7 @@
 import par_common
 import sched_common
 
-DEP_FILES = ["SchedModel.v", "SchedLemmas.v", "SchedInv.v", "SchedInv2.v", "SchedProps.v", "SchedInv3.v", "SchedInv4.v", "SchedTheorems.v"]
+DEP_FILES = ["SchedModel.v", "SchedLemmas.v", "SchedInv.v", "SchedInv2.v", "SchedProps.v", "SchedInv3.v", "SchedInv4.v", "SchedTheorems.v", "FlowOpModel.v", "FlowOpProofs.v", "FlowComplete.v", "FlowSaturated.v"]
 PID = "C08"
 
 
